@@ -480,12 +480,12 @@ theorem seq_skip_transform_applies (S : List Nat) (ch : Choices) (g : Geometry)
   intro s d
   obtain ⟨encs, hf⟩ := encodeGeometry_full ch g md opts bs henc
   obtain ⟨e, _, he⟩ := encodeAttribute_of_index ch g md opts bs encs hf i a hi
-  have f := attFacts ch opts g.numPoints i a e hok.points (hok.atts i a hi) he
-  obtain ⟨hty', _⟩ := portableOf_eq ch opts g.numPoints i a e he
+  have f := attFacts _ opts g.numPoints i a e hok.points (hok.atts i a hi) he
+  obtain ⟨hty', _⟩ := portableOf_eq _ opts g.numPoints i a e he
   have hs' : s = expectedAttributeSkip S g.numPoints a e :=
-    (expectedAttributeSkip_eq S ch opts g.numPoints i a e he).symm
+    (expectedAttributeSkip_eq S _ opts g.numPoints i a e he).symm
   have hd' : d = expectedAttribute g.numPoints a e :=
-    (expectedAttribute_eq ch opts g.numPoints i a e he).symm
+    (expectedAttribute_eq _ opts g.numPoints i a e he).symm
   have hne : e.encType ≠ 0 := by rw [hty']; exact hty
   refine ⟨by rw [hs', hd']; exact applySkippedTransform_spec S g.numPoints a e f hne hs, ?_⟩
   have hne' : (e.encType != 0) = true := by simpa using hne
